@@ -124,8 +124,17 @@ package blob
 //@   modifies boxed(dst)
 //@   ensures result.0 >= 0
 
+// absJoin = filepath.Abs(filepath.Join(...)): trusted, a function of its elements (and of the process's working directory)
+//@ extern func absJoin
+//@   pure reads none
 //@ extern func (*DiskCache).GetFile
 //@   pure reads none
+// (added by the C08 audit; body checked although callers use the extern view above) the file name of a
+// digest is made of the cache directory, "blobs" and the "sha256-%x" print of one operand: nothing
+// that depends on anything but c.dir and d, so that the name tested by Get/Chunked/copyNamedFile is
+// the name written by Put/Import
+//@   assert-at call fmt.Sprintf #1 : arg0 == "sha256-%x" && len(arg1) == 1
+//@   assert-at call absJoin #1 : len(arg0) == 3 && arg0[0] == c.dir && arg0[1] == "blobs" && arg0[2] == filename
 
 // ---- copyNamedFile -------------------------------------------------------------------------
 // returns in source order: 1 already there  2 open failed  3 size 0  4 copy error
@@ -195,6 +204,28 @@ package blob
 // the file reaches its full size only through the hash-checked final write: nothing else may
 // grow it (any Truncate in this function cuts to a length below size) - added after C08-seed3
 //@   assert-at call Truncate : arg1 < size
+// ---- added by the C08 audit (clauses appended; numbering of the earlier ones is unchanged) ----
+// the size test that allows the skip is made on the file that is going to be written
+//@   assert-at call os.Stat #1 : arg0 == name
+// the bytes the writer verified are the bytes 0..size-1 of the file: the handle writes from offset
+// 0 in place - never in append mode (O_APPEND = 1024), where a shorter leftover of a dead writer
+// would stay in front of the verified bytes; and the handle is writable (O_RDWR = 2)
+//@   assert-at call os.OpenFile #1 : (mode & 1024) == 0 && (mode & 3) == 2
+// the hash-gated writer itself - not the bare file - receives the copy
+//@   assert-at call io.Copy #1 : tagis(arg0, "*checkWriter")
+// "A successful store makes the blob retrievable": after Truncate(0)/Remove(name) the store has
+// failed and must say so (an error swallowed here reports a removed/emptied blob as stored) ...
+//@   assert-at return #4 : result != nil
+// (return #5 returns the package variable io.ErrUnexpectedEOF; the engine cannot relate its value to nil)
+//@   assert-at return #6 : result != nil
+// ... and nothing cuts or removes the file on the success path
+//@   assert-at return #7 : ghost_cleaned == 0
+// "resolving a name returns the digest of exactly the bytes linked" / "right size ==> right content":
+// the shortcut 'a file of the expected size is already there' (return #1) is sound only under a
+// content-addressed name, where an earlier hash-gated store is the only way the file got that size.
+// (FAILS at Link's call: the manifest path is not content-addressed - relinking a name to another
+// manifest of the same size is silently skipped. Genuine defect, see props/C08.json.)
+//@   requires name == c.GetFile(out)
 
 // ---- Put / Link / Get / Resolve / Import / Unlink -----------------------------------------------
 
@@ -223,6 +254,13 @@ package blob
 //@   modifies nothing
 //@ extern func splitNameDigest
 //@   pure reads none
+// ghost_tee == 1: reading from this reader feeds a hash (result of io.TeeReader, or a limited view of one)
+//@ extern func io.TeeReader
+//@   modifies nothing
+//@   ensures result != nil && result.ghost_tee == 1
+//@ extern func io.LimitReader
+//@   modifies nothing
+//@   ensures result != nil && result.ghost_tee == r.ghost_tee
 
 // The blob is stored under the file name derived from the digest that gates the writer.
 //@ func (*DiskCache).Put
@@ -243,6 +281,15 @@ package blob
 //@   assert-at call copyNamedFile #1 : info.Size() > 0
 // "resolving a name returns the digest of exactly the bytes linked": Resolve reads at most 1 MiB
 //@   assert-at call copyNamedFile #1 : info.Size() <= (1 << 20)
+// ---- added by the C08 audit ----
+// the manifest written is the one of the name given; the size that gates the copy is the size of
+// the blob file that was opened (not of some other file)
+//@   assert-at call manifestPath #1 : arg0 == c && arg1 == name
+//@   assert-at call Stat #1 : arg0 == f
+// Link reports success only if the copy into the manifest file reported success
+//@   ghost-at entry : ghost_linked := 0
+//@   ghost-at after call copyNamedFile #1 : ghost_linked := ite(result == nil, 1, 0)
+//@   ensures result == nil ==> ghost_linked == 1
 
 // Get: present means a file of non-zero size under the digest's name; the size reported is the file's.
 //@ func (*DiskCache).Get
@@ -251,6 +298,9 @@ package blob
 //@   assert-at return #3 : err == nil && info.Size() > 0
 //@   assert-at return #1 : err != nil
 //@   ensures result.0.Size >= 0 && (result.0.Size > 0 ==> result.0.Digest == d && result.1 == nil)
+// ---- added by the C08 audit: the size reported is the size of the file found under GetFile(d)
+//@   assert-at return #3 : result.0.Size == info.Size() && result.0.Digest == d && result.1 == nil
+//@   assert-at return #2 : info.Size() == 0
 
 // readAndSum: the digest returned is SHA-256 of the bytes returned.
 // TeeReader (listed assumption): what ReadAll got out of LimitReader(TeeReader(f, h)) is what h was fed.
@@ -260,6 +310,12 @@ package blob
 //@   assert-at return #3 : forall k int :: 0 <= k && k < 32 ==> d.sum[k] == shabyte(h.ghost_stream, k)
 //@   ensures result.2 == nil ==> (forall k int :: 0 <= k && k < 32 ==> result.1.sum[k] == shabyte(sapp(0, result.0, len(result.0)), k))
 //@   ensures result.2 != nil ==> result.0 == nil
+// ---- added by the C08 audit: the file hashed is the file named; what ReadAll reads comes through
+// the tee (ghost_tee marks TeeReader results and limited views of them), so the listed TeeReader
+// assumption above is applied only to a reader it is true of
+//@   assert-at call os.Open #1 : arg0 == filename
+//@   assert-at call io.LimitReader #1 : arg0 == r && arg1 == limit
+//@   assert-at call io.ReadAll #1 : arg0.ghost_tee == 1
 
 // Resolve: the digest returned is the one readAndSum computed from the bytes it read, and
 // exactly these bytes are stored under it.
@@ -268,6 +324,15 @@ package blob
 //@   assert-at call readAndSum #1 : arg0 == file
 //@   assert-at call PutBytes #1 : arg0 == c && arg1 == d && arg2 == data
 //@   assert-at return #5 : forall k int :: 0 <= k && k < 32 ==> d.sum[k] == shabyte(sapp(0, data, len(data)), k)
+// ---- added by the C08 audit ----
+// the manifest read is the one of the name asked for; Resolve reads at least as much as Link admits
+// (Link#assert.4: at most 1 MiB), so that the digest returned covers all the bytes linked
+//@   assert-at call manifestPath #1 : arg0 == c && arg1 == name
+//@   assert-at call readAndSum #1 : arg1 >= (1 << 20)
+// the digest is returned only after the re-store as a blob succeeded ("re-stores it as a blob")
+//@   ghost-at entry : ghost_restored := 0
+//@   ghost-at after call PutBytes #1 : ghost_restored := ite(result == nil, 1, 0)
+//@   assert-at return #5 : ghost_restored == 1 && result.0 == d && result.1 == nil
 
 // Import: the temp file is renamed to the name of the digest that was computed while it was
 // written, only after the byte count matched and the file was closed without error.
@@ -281,11 +346,26 @@ package blob
 //@   assume-at after call io.Copy #1 : result.1 == nil ==> f.ghost_stream == h.ghost_stream && f.ghost_len == result.0
 // at the rename the temp file holds size bytes whose SHA-256 is the digest that names the target
 //@   assert-at call os.Rename #1 : f.ghost_len == size && (forall k int :: 0 <= k && k < 32 ==> d.sum[k] == shabyte(f.ghost_stream, k))
+// ---- added by the C08 audit ----
+// what is copied into the temp file comes through the tee (so the TeeReader assumption above is
+// applied to a reader it is true of), and it goes into the temp file that is renamed
+//@   assert-at call io.Copy #1 : arg1.ghost_tee == 1
+// success is reported only after the rename succeeded, with the digest the file was renamed to
+//@   ghost-at entry : ghost_renamed := 0
+//@   ghost-at after call os.Rename #1 : ghost_renamed := ite(result == nil, 1, 0)
+//@   assert-at return #6 : ghost_renamed == 1 && result.0 == d && result.1 == nil
+//@   ensures result.1 == nil ==> ghost_renamed == 1
+// "A successful store makes the blob retrievable": Get reports a file of size 0 as absent.
+// (FAILS for size == 0: Import(empty reader, 0) returns sha256(""), nil and Get says ErrNotExist -
+// the same defect as copyNamedFile#post.1, on Import's own path. Genuine defect, see props/C08.json.)
+//@   ensures result.1 == nil ==> size > 0
 
 // Unlink: removes exactly the manifest path of the name.
 //@ func (*DiskCache).Unlink
 //@   modifies nothing
 //@   assert-at call os.Remove #1 : arg0 == manifest
+// ---- added by the C08 audit: ... of the name given
+//@   assert-at call manifestPath #1 : arg0 == c && arg1 == name
 // (removed: "result.1 != nil ==> result.0 == false" is Unlink's doc comment, which the code violates with "return true, err";
 //  it is not part of property C08, so it is not an obligation of this check; noted in DESIGN.md)
 
@@ -349,3 +429,38 @@ package blob
 // the full blob size c.size must not happen while other parts are unverified. The Chunker
 // keeps no record of verified ranges, so only a chunk covering the whole blob is safe.
 //@   assert-at call io.CopyN #1 : chunk.End + 1 < c.size || chunk.Start == 0 || chunk.End < chunk.Start
+// ---- added by the C08 audit ----
+// the chunk goes through the hash-gated writer
+//@   assert-at call io.CopyN #1 : tagis(arg0, "*checkWriter")
+// "A successful store ...": Put reports success only when the whole chunk went through the gated
+// writer without error (or the blob was already complete when the Chunker was made: c.f == nil)
+//@   ghost-at entry : ghost_chunkok := 0
+//@   ghost-at after call io.CopyN #1 : ghost_chunkok := ite(result.1 == nil && result.0 == chunk.End - chunk.Start + 1, 1, 0)
+// (stated at the returns: return #2 returns the package variable io.ErrUnexpectedEOF, which the engine cannot relate to nil)
+//@   assert-at return #1 : c.f == nil
+//@   assert-at return #3 : result == nil ==> ghost_chunkok == 1
+
+// DiskCache.Chunked (added by the C08 audit): a Chunker that writes nothing (f == nil,
+// "pre-validated") is handed out only for a file of exactly the expected size under the digest's
+// name; otherwise the Chunker carries the digest, the size and an open handle of that very file
+// (a nil handle would turn every Put into a silent no-op that reports success). The file is
+// created if missing, opened writable, neither in append mode (WriteAt at the chunk's offset) nor
+// with O_TRUNC (chunks stored through another Chunker of the same blob must not be cut away under
+// it: its last chunk would bring the file to full size with a hole in front).
+//@ func (*DiskCache).Chunked
+//@   assert-at call os.Stat #1 : arg0 == c.GetFile(d)
+//@   assert-at return #1 : err == nil && info.Size() == size
+//@   assert-at call os.OpenFile #1 : arg0 == c.GetFile(d) && (arg1 & 64) != 0 && (arg1 & 3) != 0 && (arg1 & 1024) == 0 && (arg1 & 512) == 0
+//@   assert-at return #3 : result.1 == nil && result.0 != nil && result.0.f != nil && result.0.f == f && result.0.digest == d && result.0.size == size
+
+// manifestPath, loop body (range-over-func yield closure; added by the C08 audit): "case-insensitive
+// manifest path lookup": the scan stops at the first existing link that equals the wanted path
+// under case folding (strings.EqualFold <==> sfoldeq, types/model block) and answers with the path
+// of THAT link below c.dir; it continues exactly when there was no error and no such match.
+//@ func (*DiskCache).manifestPath$1
+//@   requires jump$1 == 0   -- range-over-func protocol: the loop has not exited (compiler-generated guard)
+//@   assert-at call strings.EqualFold #1 : arg0 == maybe && arg1 == l
+//@   assert-at call path/filepath.Join #1 : sfoldeq(maybe, l) && err == nil
+//@   assert-at call path/filepath.Join #1 : len(arg0) == 2 && arg0[0] == c.dir && arg0[1] == l
+// (old(maybe): seen from inside the closure the captured result variable, also a *string, may alias maybe)
+//@   ensures result <==> (arg1 == nil && !sfoldeq(old(maybe), arg0))
